@@ -167,6 +167,20 @@ PROPS["C15"] = {
 }
 
 
+PROPS["C16"] = {
+    "level": "exploration",
+    "engine": "opfuzz + libFuzzer",
+    "level_text": "generated element trees (well-formed names, up to 4 attributes with arbitrary NUL-free values, non-blank non-adjacent text nodes, depth up to 1000) are serialised and parsed back; the same trees are written as documents with the other quote style, numeric and named references, comments wherever white space is allowed (incl. next to text) and processing instructions with line breaks; truncations and byte flips are parsed for totality and error/element positions; copies of Xml::Variant values are checked for independence against a value model; a libFuzzer target with the same oracles runs on arbitrary NUL-free bytes in exactly sized heap blocks",
+    "level_note": "trusted: the tree model and comparison in harness/xml_common.hpp, ASan/UBSan, libFuzzer; documents with comments are compared modulo white space in text (a comment may split a text node and white space next to a comment is not significant)",
+    "technique": "property-based round-trip testing on generated element trees and documents plus coverage-guided fuzzing with in-target oracle",
+    "rule": "opfuzz 'tree': flat op lists (open, attr, text, close, and v_* ops on three Xml::Variant variables) build a tree under a root element; oracle: parse(toString(e)) has the same names, attribute order/values, text and nesting; decorated document parses to the same tree (exact without comments, white-space-insensitive text with comments); element line/column inside the text; all truncations of documents <=150 bytes (20 sampled beyond) and 10 flips: no crash, error position inside the text; Xml::Variant variables equal their value model after every v_* op. "
+            "Non-trivial = (an attribute value with quote, ampersand, angle bracket or line break AND depth >=2) OR a document with a comment directly followed by text. libFuzzer 'fuzz': non-trivial = a parsed input in the round-trip domain with such an attribute value and nesting; distinct by input hash.",
+    "assumptions": ["nesting depth <= 1000", "NUL-free input", "lines are separated by CR LF, CR or LF", "attribute names unique per element"],
+    "parts": [opf("tree", ["harness/c16_xml.cpp"], {"cases": 60000, "maxsize": 40}, {"cases": 600000, "maxsize": 120, "workers": 16}, deps=["harness/xml_common.hpp", "harness/json_common.hpp"]),
+              lfz("fuzz", ["harness/c16_xml_fuzz.cpp"], {"runs": 150000, "workers": 8, "time": 120}, {"runs": 3000000, "workers": 16, "time": 900}, max_len=400, deps=["harness/xml_common.hpp", "harness/json_common.hpp"])],
+}
+
+
 # property modules kept in separate files (props_cXX.py define PROPS["CXX"] using the helpers above)
 import glob as _glob, os as _os
 for _f in sorted(_glob.glob(_os.path.join(_os.path.dirname(_os.path.abspath(__file__)), "props_c*.py"))):
